@@ -459,26 +459,5 @@ pub fn run(tier: &str) -> i32 {
 
 pub fn replay(v: &serde_json::Value) -> i32 {
     let prog: Program = serde_json::from_value(v["params"].clone()).expect("params");
-    let prefix: Vec<Choice> = serde_json::from_value(v["prefix"].clone()).expect("prefix");
-    let r = crate::engine::sched::replay(&factory(prog), &prefix, Cost { preempt: 1000, fault: 1000, crash: 1000, clock: 1000 });
-    for l in &r.trace {
-        println!("{l}");
-    }
-    if let Some(e) = &r.machinery_error {
-        println!("MACHINERY: {e}");
-        return 2;
-    }
-    let mut vs = r.step_violations.clone();
-    if let Some(f) = &r.finish {
-        vs.extend(f.violations.clone());
-        println!("outcome: {}", f.outcome);
-    }
-    for v in &vs {
-        println!("violation [{}]: {}", v.sig, v.msg);
-    }
-    if vs.is_empty() {
-        0
-    } else {
-        1
-    }
+    super::replay_schedule(factory(prog), v)
 }
